@@ -177,6 +177,9 @@ func (c *collector) add(mode string, p Prog, evs []Event, out vsched.Outcome) {
 	t := &TraceRec{Events: evs, End: out.Status, Count: 1, Mode: mode, Prog: p}
 	if out.Status != "done" {
 		t.Sched = out.Trace
+		if len(t.Sched) > 300 {
+			t.Sched = t.Sched[:300]
+		}
 		t.Detail = out.Detail
 		if len(t.Detail) > 1500 {
 			t.Detail = t.Detail[:1500]
